@@ -110,17 +110,17 @@ Qed.
 
 (** * Part 2: well-formed trees (fragments 1 and 2: constants, identifiers, memory cells, conditionals, the five associative operators,
     minus, and slices; every width is at most 64) and the one-step soundness of _expr_simp on them *)
-Definition frag_op (op : string) : bool := match opk_of op with OAdd | OMul | OXor | OAnd | OOr | OSub | OShl | OShr | OSar => true | _ => false end.
+Definition frag_op (op : string) : bool := match opk_of op with OAdd | OMul | OXor | OAnd | OOr | OSub | OShl | OShr | OSar | OEq | OParity => true | _ => false end.
 Definition is_shift (op : string) : bool := match opk_of op with OShl | OShr | OSar => true | _ => false end.
 Definition same_size (n : Z) (args : list expr) : bool := forallb (fun a => size a =? n) args.
-(** operands: one width for + * ^ & | -; a value and a count (any widths) for the shifts *)
+(** operands: one width for + * ^ & | - == parity (two operands for ==, one for parity); a value and a count (any widths) for the shifts *)
 Definition args_ok (op : string) (n : Z) (args : list expr) : bool :=
   if is_shift op then Nat.eqb (List.length args) 2 else same_size n args.
 Definition op_ok (op : string) (args : list expr) : bool :=
   match args with
   | [] => false
   | a :: _ => frag_op op && args_ok op (size a) args &&
-              match opk_of op with OSub => (Nat.leb (List.length args) 2) | _ => true end
+              match opk_of op with OSub => (Nat.leb (List.length args) 2) | OEq => Nat.eqb (List.length args) 2 | OParity => Nat.eqb (List.length args) 1 | _ => true end
   end.
 (** [Q name width is_reg is_term]: an arbitrary predicate every identifier of the tree satisfies (the simplifier never invents identifiers, so it is preserved) *)
 Section IdPred.
@@ -427,7 +427,7 @@ Section Sound.
     - change (wf (EOp op (a :: r))) with (forallb wf (a :: r) && op_ok op (a :: r)). apply andb_true_iff. split; [apply forallb_Forall; assumption|].
       unfold op_ok. rewrite (aop_frag _ _ K), (args_ok_noshift op _ _ (aop_noshift _ _ K)). cbn [andb]. apply andb_true_iff. split.
       + apply same_size_all. assumption.
-      + pose proof (aop_not_sub _ _ K). destruct (opk_of op); try reflexivity. congruence.
+      + clear - K. unfold aop_of in K. destruct (opk_of op); try discriminate K; reflexivity.
     - apply size_node. lia.
     - rewrite (ev_assoc op k a r K) by lia. rewrite (ev_assoc op k a0 r0 K) by lia. rewrite Sa0. apply wrap_cong. assumption.
   Qed.
@@ -847,6 +847,138 @@ Section Sound.
       split; [exact A|]. split; [rewrite B; symmetry; exact Sz|]. rewrite C, EvS, Ek, Evc.
       rewrite (and_mask_shr _ _ y0 sgm wm vm t vc Wa eq_refl eq_refl ltac:(lia) Lt). reflexivity.
   Qed.
+  (** ** parity and == : constant folding, and (X | m) == 0 with m <> 0 *)
+  Definition is_plain (op : string) : bool := match opk_of op with OXor | OAdd | OOr | OAnd => false | _ => true end.
+  Lemma dedup_rule_plain op ai aj : is_plain op = true -> dedup_rule op ai aj = DKeep.
+  Proof. unfold is_plain, dedup_rule. destruct (opk_of op); try discriminate; reflexivity. Qed.
+  Lemma dedup_inner_plain op : is_plain op = true -> forall rest ai, dedup_inner op ai rest = Ok (ai, rest).
+  Proof.
+    intros S. induction rest as [|x r IH]; intros ai; simpl; [reflexivity|]. rewrite (dedup_rule_plain op ai x S), IH. reflexivity.
+  Qed.
+  Lemma dedup_outer_plain op : is_plain op = true -> forall fuel args, dedup_outer op fuel args = Ok args.
+  Proof.
+    intros S. induction fuel as [|f IH]; intros args; simpl; [reflexivity|].
+    destruct args as [|a [|b r]]; try reflexivity. rewrite (dedup_inner_plain op S). cbn [bind fst snd]. rewrite IH. reflexivity.
+  Qed.
+
+  Definition parity_pipeline (op : string) (a : expr) : res expr :=
+    match a with EInt _ _ v => mk_int (size (EOp op [a])) (parity_val v) | _ => Ok (EOp op [a]) end.
+  Lemma simp_parity_unfold op a : opk_of op = OParity -> simp_op op [a] = parity_pipeline op a.
+  Proof.
+    intros Ek. unfold simp_op, parity_pipeline. rewrite (flatten_nonassoc op) by (unfold is_assoc; rewrite Ek; reflexivity).
+    unfold is_assoc. rewrite Ek. cbv zeta. cbn [bind andb List.length Nat.eqb negb].
+    rewrite (dedup_outer_plain op) by (unfold is_plain; rewrite Ek; reflexivity). cbn [bind]. destruct a; reflexivity.
+  Qed.
+  Theorem simp_op_parity op eargs e' : opk_of op = OParity -> wf (EOp op eargs) = true -> simp_op op eargs = Ok e' -> good (EOp op eargs) e'.
+  Proof.
+    intros Ek W H. pose proof W as W'. simpl in W'. apply andb_true_iff in W' as [Wl O]. unfold op_ok in O. destruct eargs as [|a r]; [discriminate|].
+    rewrite Ek in O. apply andb_true_iff in O as [_ Ln]. destruct r as [|? ?]; [|discriminate].
+    apply forallb_Forall in Wl. inversion Wl as [|? ? Wa _]; subst. destruct (wf_range a Wa) as [Pa Ra]. pose proof (wf_size_le a Wa) as Sle.
+    rewrite (simp_parity_unfold op a Ek) in H. unfold parity_pipeline in H.
+    destruct a as [sg w v| | | | | | |]; try (inversion H; subst e'; apply good_refl; exact W).
+    apply mk_int_ok in H. subst e'. destruct (wf_int_inv _ _ _ Wa) as (-> & Pw & Rv & Ev).
+    assert (Sz : size (EOp op [EInt false w v]) = w) by (rewrite size_node by (simpl; lia); reflexivity). rewrite Sz.
+    destruct (wf_int w (parity_val v) Pw) as (A & B & C). split; [exact A|]. split; [rewrite B; symmetry; exact Sz|].
+    rewrite C, eval_op_node, Sz. cbn [map]. unfold eval_op. rewrite Ek. rewrite Ev. reflexivity.
+  Qed.
+
+  Lemma lor_ge_l a b : 0 <= a -> 0 <= b -> a <= Z.lor a b.
+  Proof.
+    intros Ha Hb. assert (D : Z.land a (Z.ldiff b a) = 0).
+    { apply Z.bits_inj'. intros n Hn. rewrite Z.land_spec, Z.ldiff_spec, Z.bits_0. destruct (Z.testbit a n), (Z.testbit b n); reflexivity. }
+    assert (E : Z.lor a b = a + Z.ldiff b a).
+    { rewrite (Z.add_nocarry_lxor _ _ D), (Z.lxor_lor _ _ D). apply Z.bits_inj'. intros n Hn. rewrite !Z.lor_spec, Z.ldiff_spec.
+      destruct (Z.testbit a n), (Z.testbit b n); reflexivity. }
+    assert (0 <= Z.ldiff b a) by (apply Z.ldiff_nonneg; left; exact Hb). lia.
+  Qed.
+  Lemma afold_or_ge : forall vs, Forall (fun v => 0 <= v) vs -> forall m, In m vs -> 0 <= afold AOr vs /\ m <= afold AOr vs.
+  Proof.
+    induction vs as [|v vs IH]; intros F m I; [contradiction|]. inversion F as [|? ? Pv Fv]; subst. rewrite afold_cons. cbn [af].
+    assert (P0 : 0 <= afold AOr vs).
+    { destruct vs as [|v2 vs']; [change (afold AOr []) with 0; lia|]. apply (IH Fv v2). left; reflexivity. }
+    split; [apply Z.lor_nonneg; lia|]. destruct I as [->|I].
+    - apply lor_ge_l; lia.
+    - destruct (IH Fv m I) as [_ U]. rewrite Z.lor_comm. pose proof (lor_ge_l (afold AOr vs) v P0 Pv). lia.
+  Qed.
+
+  Definition eq_pipeline (op : string) (a0 a1 : expr) : res expr :=
+    match a0, a1 with
+    | EInt _ _ v0, EInt _ _ v1 => mk_int (size a0) (if v0 =? v1 then 1 else 0)
+    | _, EInt _ _ v1 =>
+        if v1 =? 0 then
+          match a0 with
+          | EOp op2 ys =>
+              if (op2 =? "|")%string then
+                match ys with
+                | _ :: EInt _ _ vm :: _ => if negb (vm =? 0) then mk_int (size a0) 0 else Ok (EOp op [a0; a1])
+                | _ :: _ :: _ => Ok (EOp op [a0; a1])
+                | _ => Err EIndexError
+                end
+              else Ok (EOp op [a0; a1])
+          | _ => Ok (EOp op [a0; a1])
+          end
+        else Ok (EOp op [a0; a1])
+    | _, _ => Ok (EOp op [a0; a1])
+    end.
+  Lemma simp_eq_unfold op a0 a1 : opk_of op = OEq -> simp_op op [a0; a1] = eq_pipeline op a0 a1.
+  Proof.
+    intros Ek. unfold simp_op, eq_pipeline. rewrite (flatten_nonassoc op) by (unfold is_assoc; rewrite Ek; reflexivity).
+    unfold is_assoc. rewrite Ek. cbv zeta. cbn [bind andb List.length Nat.eqb negb].
+    rewrite (dedup_outer_plain op) by (unfold is_plain; rewrite Ek; reflexivity). cbn [bind]. reflexivity.
+  Qed.
+  Theorem simp_op_eq op eargs e' : opk_of op = OEq -> wf (EOp op eargs) = true -> simp_op op eargs = Ok e' -> good (EOp op eargs) e'.
+  Proof.
+    intros Ek W H. pose proof W as W'. simpl in W'. apply andb_true_iff in W' as [Wl O]. unfold op_ok in O. destruct eargs as [|a0 r]; [discriminate|].
+    rewrite Ek in O. apply andb_true_iff in O as [O Ln]. apply andb_true_iff in O as [_ Ao]. destruct r as [|a1 [|? ?]]; try discriminate.
+    rewrite (args_ok_noshift op) in Ao by (unfold is_shift; rewrite Ek; reflexivity). apply same_size_all in Ao.
+    inversion Ao as [|? ? _ Ao1]; subst. inversion Ao1 as [|? ? S1 _]; subst.
+    apply forallb_Forall in Wl. inversion Wl as [|? ? W0 Wl1]; subst. inversion Wl1 as [|? ? W1 _]; subst.
+    destruct (wf_range a0 W0) as [P0 R0]. destruct (wf_range a1 W1) as [P1 R1]. pose proof (wf_size_le a0 W0) as Sle.
+    assert (Keep : good (EOp op [a0; a1]) (EOp op [a0; a1])) by (apply good_refl; exact W).
+    assert (Sz : size (EOp op [a0; a1]) = size a0) by (apply size_node; lia).
+    assert (Ev : ev (EOp op [a0; a1]) = if ev a0 =? ev a1 then wrap (size a0) 1 else 0) by (rewrite eval_op_node, Sz; cbn [map]; unfold eval_op; rewrite Ek; reflexivity).
+    assert (Const : forall z, (ev (EOp op [a0; a1]) = wrap (size a0) z) -> good (EOp op [a0; a1]) (EInt false (size a0) (wrap (size a0) z))).
+    { intros z Hz. destruct (wf_int (size a0) z ltac:(lia)) as (A & B & C). split; [exact A|]. split; [rewrite B; symmetry; exact Sz|]. rewrite C. symmetry. exact Hz. }
+    rewrite (simp_eq_unfold op a0 a1 Ek) in H. unfold eq_pipeline in H.
+    destruct a1 as [sg1 w1 v1| | | | | | |]; try (destruct a0; inversion H; subst e'; exact Keep).
+    destruct (wf_int_inv _ _ _ W1) as (-> & Pw1 & Rv1 & E1).
+    destruct a0 as [sg0 w0 v0| | |op2 ys| | | |];
+      try (destruct (v1 =? 0); inversion H; subst e'; exact Keep).
+    - destruct (wf_int_inv _ _ _ W0) as (-> & Pw0 & Rv0 & E0). apply mk_int_ok in H. subst e'. apply Const. rewrite Ev, E0, E1.
+      destruct (v0 =? v1); [reflexivity|]. unfold wrap. symmetry. apply Z.mod_0_l. apply Z.pow_nonzero; simpl in *; lia.
+    - destruct (v1 =? 0) eqn:Z1; [|inversion H; subst e'; exact Keep]. apply Z.eqb_eq in Z1. subst v1.
+      destruct (op2 =? "|")%string eqn:E2; [|inversion H; subst e'; exact Keep]. apply String.eqb_eq in E2. subst op2.
+      destruct ys as [|y0 [|m t]]; try discriminate.
+      destruct m as [sgm wm vm| | | | | | |]; try (inversion H; subst e'; exact Keep).
+      destruct (negb (vm =? 0)) eqn:Nz; [|inversion H; subst e'; exact Keep]. apply negb_true_iff in Nz. apply Z.eqb_neq in Nz.
+      apply mk_int_ok in H. subst e'. apply Const. rewrite Ev, E1.
+      (* the value of X | m is at least m > 0 *)
+      destruct (wf_op_inv _ _ W0 eq_refl) as (Wys & y & r & Ey & _ & Sys). inversion Ey; subst y r. clear Ey.
+      inversion Wys as [|? ? Wy0 Wys1]; subst. inversion Wys1 as [|? ? Wm _]; subst.
+      destruct (wf_range y0 Wy0) as [Py0 Ry0]. destruct (wf_int_inv _ _ _ Wm) as (_ & _ & Rm & Em).
+      destruct (all_wf_range _ _ Wys Sys) as [Rg _].
+      assert (F : Forall (fun v => 0 <= v) (map ev (y0 :: EInt sgm wm vm :: t))).
+      { apply Forall_forall. intros v I. apply in_map_iff in I as (x & <- & I). rewrite Forall_forall in Rg. specialize (Rg x I). lia. }
+      assert (I : In vm (map ev (y0 :: EInt sgm wm vm :: t))) by (cbn [map]; right; left; exact Em).
+      destruct (afold_or_ge _ F vm I) as [_ Ge].
+      assert (Nzero : ev (EOp "|" (y0 :: EInt sgm wm vm :: t)) <> 0).
+      { intros Hz. rewrite (ev_assoc "|" AOr y0 _ eq_refl Py0) in Hz.
+        assert (Lt : afold AOr (map ev (y0 :: EInt sgm wm vm :: t)) < 2 ^ size y0).
+        { clear - Rg Py0. assert (G : forall l, Forall (fun a => 0 <= ev a < 2 ^ size y0) l -> 0 <= afold AOr (map ev l) < 2 ^ size y0).
+          { induction l as [|x l IH]; intros Fl; [change (afold AOr (map ev [])) with 0; split; [lia | apply Z.pow_pos_nonneg; lia]|].
+            inversion Fl as [|? ? Rx Rl]; subst. cbn [map]. rewrite afold_cons. cbn [af]. specialize (IH Rl).
+            split; [apply Z.lor_nonneg; lia|]. 
+            assert (E : Z.lor (ev x) (afold AOr (map ev l)) = Z.lor (ev x) (afold AOr (map ev l)) mod 2 ^ size y0).
+            { rewrite <- !Z.land_ones by lia. rewrite Z.land_lor_distr_l. rewrite !Z.land_ones by lia. rewrite !Z.mod_small by lia. reflexivity. }
+            rewrite E. apply Z.mod_pos_bound. apply Z.pow_pos_nonneg; lia. }
+          apply G. exact Rg. }
+        unfold wrap in Hz. rewrite Z.mod_small in Hz by lia. lia. }
+      change (ev (EInt false w1 0)) with (wrap w1 0) in *. 
+      assert (Z0 : wrap w1 0 = 0) by (unfold wrap; apply Z.mod_0_l; apply Z.pow_nonzero; lia). 
+      destruct (Z.eqb_spec (ev (EOp "|" (y0 :: EInt sgm wm vm :: t))) 0) as [Q|Q]; [contradiction|].
+      unfold wrap. symmetry. apply Z.mod_0_l. apply Z.pow_nonzero; lia.
+  Qed.
+
   (** ** one step of _expr_simp *)
   Lemma osub_is_minus op : opk_of op = OSub -> op = "-"%string.
   Proof.
@@ -929,6 +1061,8 @@ Section Sound.
       destruct (op_ok_inv _ _ O) as (a & r & _ & F & _). unfold frag_op in F.
       destruct (opk_of op) eqn:Ek; try discriminate;
         first [ apply (simp_op_shift op args e'); [unfold is_shift; rewrite Ek; reflexivity | exact W | exact H]
+              | apply (simp_op_eq op args e' Ek W H)
+              | apply (simp_op_parity op args e' Ek W H)
               | apply osub_is_minus in Ek; subst op; apply simp_op_sub; assumption
               | eapply (simp_op_assoc op _ args e'); [unfold aop_of; rewrite Ek; reflexivity | exact W | exact H] ].
     - simpl in H. inversion H; subst. apply simp_cond_good. exact W.
